@@ -4,7 +4,7 @@
 D=$1; shift
 for spec in "$@"; do
   P=${spec%%:*}; CH=$(echo ${spec#*:} | tr ',' ' ')
-  tools/try_seed_wt.sh $D/$P $P $CH > /tmp/s3_$P.out 2>&1
-  echo "== $P: $(grep -A1 '== check' /tmp/s3_$P.out | grep -E 'rc=' | tr '\n' ' ') tests: $(grep -A1 'test suite' /tmp/s3_$P.out | tail -1 | cut -c1-30) demo: $(grep -A1 'demo with' /tmp/s3_$P.out | tail -1)"
-  grep -E "VIOLATION" /tmp/s3_$P.out | cut -c1-200 | head -3
+  tools/try_seed_wt.sh $D/$P $P $CH > /tmp/s6_$P.out 2>&1
+  echo "== $P: $(grep -A1 '== check' /tmp/s6_$P.out | grep -E 'rc=' | tr '\n' ' ') tests: $(grep -A1 'test suite' /tmp/s6_$P.out | tail -1 | cut -c1-30) demo: $(grep -A1 'demo with' /tmp/s6_$P.out | tail -1)"
+  grep -E "VIOLATION" /tmp/s6_$P.out | cut -c1-200 | head -3
 done
